@@ -734,7 +734,19 @@ func c19ModelArgs(prog string, e c19Edit) []string {
 
 // c19Check runs the real code for one edit and evaluates the property oracle.
 // modelOut is the model's answer for the same program+edit ("" = not asked).
+var c19LastCorr *c19Outcome // set by c19Check when the model disagrees
+
 func c19Check(cs *c19Case, base *c19Compiled, baseGraph *c19Node, pl c19Planned, modelOut string) (out c19Outcome, editedEnc string) {
+	c19LastCorr = nil
+	out, editedEnc = c19CheckProp(cs, base, baseGraph, pl, modelOut)
+	if out.Key == "" && c19LastCorr != nil {
+		out = *c19LastCorr
+		c19LastCorr = nil
+	}
+	return out, editedEnc
+}
+
+func c19CheckProp(cs *c19Case, base *c19Compiled, baseGraph *c19Node, pl c19Planned, modelOut string) (out c19Outcome, editedEnc string) {
 	e := pl.Edit
 	tag := c19Tag(base.Ast, e)
 	fail := func(kind, what, detail string) c19Outcome {
@@ -761,8 +773,9 @@ func c19Check(cs *c19Case, base *c19Compiled, baseGraph *c19Node, pl c19Planned,
 		modelOut = "" // removeOutput is not modelled (see manifest): real-code oracle only
 	}
 	if modelOut != "" && modelOut != editedEnc {
-		return c19Outcome{Kind: "correspondence", Key: "C19:model:" + e.Op, What: "model result differs from the real edited AST",
-			Impl: editedEnc, Model: modelOut}, editedEnc
+		// reported in addition to whatever the property oracle says below
+		c19LastCorr = &c19Outcome{Kind: "correspondence", Key: "C19:model:" + e.Op, What: "model result differs from the real edited AST",
+			Impl: editedEnc, Model: modelOut}
 	}
 	if !pl.Applicable {
 		return c19Outcome{}, editedEnc
@@ -1174,6 +1187,15 @@ func runC19(c *Ctx) {
 				os.WriteFile(tf, []byte(pl.Edit.String()+"\n"+cs.Src), 0o644)
 			}
 			o, enc := c19Check(cs, base, baseGraph, pl, model)
+			if corr := c19LastCorr; corr != nil && o.Kind == "property" {
+				// the model disagrees as well: keep one instance per op
+				r.hist("violation:" + corr.Key)
+				if reported[corr.Key] == 0 {
+					r.violate(Violation{Kind: corr.Kind, Key: corr.Key, What: corr.What, Input: c19Replay{Program: cs.Src, Edit: pl.Edit},
+						Impl: corr.Impl, Model: corr.Model, Broken: "correspondence Martian.Refactor.applyEdit ~ refactoring.Refactor+Apply"})
+				}
+				reported[corr.Key]++
+			}
 			r.hist("edit:" + pl.Class)
 			r.count(cs.Src+"\x00"+pl.Edit.String(), enc != "" && enc != baseEnc)
 			if o.Key == "" {
